@@ -659,7 +659,7 @@ func c33Main(t *testing.T, name string, lfsAllowed bool) {
 			runOne(cs)
 		}
 		r := vNewRand(vSeed() ^ uint64(len(name))*0x9e37)
-		n := vN(150, 1500)
+		n := vN(100, 1500)
 		for i := 0; i < n; i++ {
 			runOne(c33Gen(r.Fork(), lfsAllowed))
 		}
